@@ -4,6 +4,9 @@ Engine E1 (mc.histories): breadth-first search to a fixpoint over every history 
 dictutils.OneToOne and dictutils.ManyToMany objects, keys and values both from {0, 1, 2} (a value can equal a key),
 every operation applicable to the forward object AND to its .inv, compared step by step with a reference model
 (OneToOne: dict in which assigning an existing value evicts its previous key; ManyToMany: set of pairs).
+Operands come in two identities: the very objects already stored (small ints are shared by the interpreter) and
+*equal but distinct* objects ('xeq' ops: 1.0 for 1 in the searches; new equal tuples in the operand-identity matrix) -
+"arbitrary hashable keys and values" are compared by ==, never by identity or type.
 Engine E2 (mc.inputs): exhaustive FrozenDict matrix (every content over <= 3 keys x value alphabet, every insertion
 order, every mutator / derivation).
 
@@ -109,8 +112,41 @@ OTO_CTOR = {'dict': 'ctor(dict)', 'pairs': 'ctor(pairs)', 'iter': 'ctor(iterator
             'udict': 'unique(dict)', 'upairs': 'unique(pairs)'}
 
 
+def eqv(i):
+    """An operand equal to the int i (same hash) that is never the same object - and of another type.  float(i)
+    builds a new object on every call, so two such operands are also distinct from each other."""
+    return float(i)
+
+
+XEQ_MODES = {'k': 'key', 'v': 'value', 'kv': 'key+value'}
+XEQ_PAIRLISTS = ('update_pairs', 'update_iter', 'update_gen', 'ior_pairs', 'ior_iter', 'update_dict', 'ior_dict')
+
+
+def oto_concrete(op, alt=eqv, same=lambda i: i):
+    """('f', 'xeq', mode, name, *args) -> (side, name, *args) in which the keys (mode has 'k') and/or the values
+    ('v') are replaced by equal-but-distinct objects.  Other ops are returned as they are.  ('xeq' sorts after
+    every other op name: the representative history of a state - the smallest by repr - never contains one, so the
+    objects stored in the explored states stay the shared small ints.)"""
+    if op[1] != 'xeq':
+        return op
+    s, mode, n, a = op[0], op[2], op[3], op[4:]
+    K = alt if 'k' in mode else same
+    V = alt if 'v' in mode else same
+    if n in ('set', 'setdefaultd'):
+        return (s, n, K(a[0]), V(a[1]))
+    if n in ('del', 'pop', 'setdefault'):
+        return (s, n, K(a[0]))
+    if n == 'popd':
+        return (s, n, K(a[0]), a[1])
+    if n in XEQ_PAIRLISTS:
+        return (s, n, tuple((K(k), V(v)) for k, v in a[0]))
+    raise AssertionError(op)
+
+
 def oto_opname(op):
     n = op[1]
+    if n == 'xeq':
+        return '%s[equal-not-identical:%s]' % (oto_opname((op[0],) + tuple(op[3:])), XEQ_MODES[op[2]])
     if n in OTO_SIMPLE:
         return 'OneToOne.' + OTO_SIMPLE[n]
     if n in OTO_UPDATE_SHAPES:
@@ -301,6 +337,17 @@ class OtoSpec:
                 m.append((s, 'ior_oto', l))
             m.append((s, 'update_dictkw', ((0, 1),), (('a', 2),)))
             m.append((s, 'update_dictkw', (), (('a', 1), ('b', 1))))
+            # the same writers / removers with operands that are equal to, but not the same objects as, stored ones
+            for k, v in PAIRS:
+                for mode in ('k', 'v', 'kv'):
+                    m.append((s, 'xeq', mode, 'set', k, v))
+                m.append((s, 'xeq', 'kv', 'setdefaultd', k, v))
+                m.append((s, 'xeq', 'kv', 'update_pairs', ((k, v),)))
+                m.append((s, 'xeq', 'kv', 'ior_dict', ((k, v),)))
+            for k in DOM:
+                m += [(s, 'xeq', 'k', 'del', k), (s, 'xeq', 'k', 'pop', k)]
+            for l in three:
+                m.append((s, 'xeq', 'kv', 'update_iter', l))
         root = []
         for l in [()] + one + two + three:
             root.append(('f', 'ctor', 'pairs', l))
@@ -327,6 +374,7 @@ class OtoSpec:
         return o, D
 
     def advance(self, cls, o, D, op):
+        op = oto_concrete(op)
         s, n = op[0], op[1]
         x = o if s == 'f' else o.inv
         if n == 'ctor':
@@ -433,8 +481,9 @@ class OtoSpec:
             arg_ok = oto_canon(other) == other_before
             res, succ = [('ok', None)], [oto_seq(Dx, list(oto_seq({}, pairs).items()))]   # model of `other`, not the object
         else:
-            r_i, arg_ok = oto_apply(cls, x, op)
-            res, succ = oto_model(Dx, op, r_i)
+            cop = oto_concrete(op)              # 'xeq' ops: operands materialised as new equal objects right here
+            r_i, arg_ok = oto_apply(cls, x, cop)
+            res, succ = oto_model(Dx, cop, r_i)
         label = (name + ('@inv' if s == 'i' else ''), r_i[0] if r_i[0] == 'ok' else r_i[1])
         ok = True
         if r_i not in res:
